@@ -42,7 +42,7 @@ def describe(f):
 
 
 def run(ctx):
-    n = ctx.pick(300, 6000)
+    n = ctx.pick(240, 6000)
     with concurrent.futures.ThreadPoolExecutor(max_workers=4) as ex:
         futs = []
         if ctx.only is None:
@@ -74,7 +74,8 @@ def run(ctx):
     # ---- measured coverage
     shapes = set()
     feats = {"at_action_limit": 0, "actions_ge_128_bytes": 0, "actions_ge_16384_bytes": 0, "duplicate_keys_across_actions": 0,
-             "limit_above_default_16": 0, "more_than_16_actions": 0}
+             "limit_above_default_16": 0, "more_than_16_actions": 0, "keys_not_declared_with_all_permissions": 0,
+             "sponsor_key_declared_by_an_action": 0, "all_five_prices_nonzero": 0}
     auths, min_slack = set(), None
     for f in files:
         l = vlib.read_ndjson(f)[1]
@@ -93,6 +94,12 @@ def run(ctx):
         ks = [(k["name"], k["chunks"]) for a in l["actions"] for k in a["keys"]]
         if len(ks) != len(set(ks)):
             feats["duplicate_keys_across_actions"] += 1
+        if any(k["perm"] != 7 for a in l["actions"] for k in a["keys"]):
+            feats["keys_not_declared_with_all_permissions"] += 1
+        if any(k["name"] == "$sponsor-balance" for a in l["actions"] for k in a["keys"]):
+            feats["sponsor_key_declared_by_an_action"] += 1
+        if all(p > 0 for p in l["prices"]):
+            feats["all_five_prices_nonzero"] += 1
         if len(sizes) >= 2:
             shapes.add((l["auth"], tuple(sorted(sizes)), tuple(sorted(set(ks)))))
         slack = l["est"][0] - l["act"][0]
@@ -108,7 +115,8 @@ def run(ctx):
                 "act": l0["act"], "maxfee": l0["maxfee"], "fee": l0["fee"], "prices": l0["prices"]})
     if ctx.only is None:
         if len(auths) < 3 or not feats["at_action_limit"] or not feats["actions_ge_128_bytes"] or not feats["more_than_16_actions"] \
-                or not feats["duplicate_keys_across_actions"]:
+                or not feats["duplicate_keys_across_actions"] or not feats["keys_not_declared_with_all_permissions"] \
+                or not feats["sponsor_key_declared_by_an_action"] or not feats["all_five_prices_nonzero"]:
             raise vlib.Infra("vacuous: %s auths=%s" % (feats, sorted(auths)))
     fails = vlib.validate_scenarios(ctx, "WireSize_Trace", "WireSize_Trace.cfg", files, label="tv", signature_fn=sig, max_reports=3)
     for f in files:
@@ -135,8 +143,10 @@ def run(ctx):
                          "(update the model): clauses %s, e.g. %s" % (ctx.cov["model_drift_clauses"], drift[0].get("replay")))
     ctx.cov["rule"] = ("seeded shapes: rules' action limit from {1,8,16,32,64,128,255}; a quarter with exactly the limit and one size "
                        "class from {1,2,54,127,128,129,300,16383,16384}; a quarter sweeping the count with sizes {128,1,16384,127}; the "
-                       "rest random counts and size mixes; 0-3 declared keys per action over 5 names x 3 chunk sizes (duplicates across "
-                       "actions), random rule costs in a third, prices from {0,1,2,7,100}; factories ed25519 / secp256r1 / bls in turn. "
+                       "rest random counts and size mixes (an eighth: 3-16 actions all >= 128 bytes); 0-3 declared keys per action over 5 "
+                       "names x 3 chunk sizes with permissions from {read, read|write, read|allocate, all, write, allocate|write} "
+                       "(duplicates across actions, one key in eight is the sponsor's own balance key), random rule costs in a third, "
+                       "prices from {0,1,2,7,100}, half of the shapes with all five prices non-zero; non-zero chain id; factories ed25519 / secp256r1 / bls in turn. "
                        "distinct_nontrivial = distinct (auth, size multiset, key set) with >= 2 actions; evaluations = generated "
                        "transactions validated")
     ctx.assumptions += ["action payload sizes up to 16384 bytes and MaxFee / fee below 2^30 (TLC integers); overflow of the 64-bit unit "
